@@ -153,7 +153,7 @@ Std(chain, cons, n, src) == Consume(cons, n, Keys(TyEnd(chain), StdSeq(chain, co
    chain must produce Std(chain, ..) of the denoted sequence. *)
 \* user_into: a user type with Kind = IsIntoIterKind and a const_into_iter method; user_iter: a user-defined
 \* iterator struct (Kind = IsIteratorKind) with its own next / next_back / rev / copy
-SourceKinds == {"slice", "array", "iter_copied", "range", "range_incl", "chars", "repeat_take", "user_into", "user_iter"}
+SourceKinds == {"slice", "slice_ref", "array", "array_ref_ref", "iter_copied", "range", "range_incl", "chars", "repeat_take", "user_into", "user_iter"}
 Contiguous(s) == \A q \in 1..(Len(s) - 1) : s[q + 1] = s[q] + 1
 Denotes(kind, s) ==
     CASE kind \in {"range", "range_incl"} -> Contiguous(s)
